@@ -496,7 +496,8 @@ def main():
             kw = next((c.idx for c in sc.calls if c.name == "write" and is_data_tmp(c.p1)), None)
             kc = next((c.idx for c in sc.calls if c.name == "close" and is_data_tmp(c.p1)), None)
             if kw is not None and kc is not None:
-                djobs.append((sc, kw, kc, "EIO", "EIO", len(djobs)))
+                # after the failed write the conversion stops: the close of the temporary file is the next call
+                djobs.append((sc, kw, kw + 1, "EIO", "EIO", len(djobs)))
     for sc, rc, h, tr, v, outside, raw, failed in pool.map(dfault_job, djobs):
         counts["double_fault_runs"] = counts.get("double_fault_runs", 0) + 1
         chk.cov["evaluations"] += 1
